@@ -27,7 +27,7 @@ func init() {
 			fs.Enum("cmp", "unknown", path)
 			fs.OptNat("wRealm", 0, false, path)
 			fs.OptNat("wSwamp", 0, false, path)
-			for _, n := range []string{"persistsInMem", "persistsIdle", "persistsWi", "persistsSize"} {
+			for _, n := range []string{"persistsInMem", "persistsIdle", "persistsWi", "persistsSize", "unchangedChecksType"} {
 				fs.Tri(n, Unknown, path)
 			}
 		}
@@ -40,6 +40,7 @@ func init() {
 		unknownAll()
 		c21Lookup(fs, f, path)
 		c21Persist(fs, f, path)
+		c21Unchanged(fs, f, path)
 	}})
 }
 
@@ -369,4 +370,55 @@ func c21SelOf(f *File, e ast.Expr, v string) string {
 		return out
 	}
 	return ""
+}
+
+// c21Unchanged: the "already registered and not changed" early return of RegisterPattern.
+//
+//	recognised shape: inside `if !inMemorySwamp {`, `if _, ok := s.patterns[pattern.Get()]; ok { if <cond> { return } }` where <cond>
+//	compares GetCloseAfterIdle / GetWriteInterval / GetMaxFileSizeByte of the stored entry with the new values;
+//	unchangedChecksType = yes when <cond> also requires `…GetSwampType() == setting.PermanentSwamp`, no when it does not.
+func c21Unchanged(fs *Facts, f *File, path string) {
+	fd := f.Func("settings", "RegisterPattern")
+	if fd == nil || fd.Body == nil {
+		return
+	}
+	var outer *ast.IfStmt
+	for _, st := range fd.Body.List {
+		if is, ok := st.(*ast.IfStmt); ok && f.Str(is.Cond) == "!inMemorySwamp" {
+			outer = is
+		}
+	}
+	if outer == nil {
+		return
+	}
+	// no other return may precede the registration
+	returns := 0
+	ast.Inspect(fd.Body, func(n ast.Node) bool {
+		if _, ok := n.(*ast.FuncLit); ok {
+			return false
+		}
+		if _, ok := n.(*ast.ReturnStmt); ok {
+			returns++
+		}
+		return true
+	})
+	if returns != 1 || len(outer.Body.List) == 0 {
+		return
+	}
+	ex, ok := outer.Body.List[0].(*ast.IfStmt)
+	if !ok || ex.Init == nil || f.Str(ex.Init) != "_, ok := s.patterns[pattern.Get()]" || f.Str(ex.Cond) != "ok" || len(ex.Body.List) != 1 {
+		return
+	}
+	inner, ok := ex.Body.List[0].(*ast.IfStmt)
+	if !ok || !c21HasReturn(inner.Body) {
+		return
+	}
+	cond := f.Str(inner.Cond)
+	base := strings.Contains(cond, "GetCloseAfterIdle() == time.Duration(closeAfterIdleSec)*time.Second") &&
+		strings.Contains(cond, "GetWriteInterval() == time.Duration(filesystemSettings.WriteIntervalSec)*time.Second") &&
+		strings.Contains(cond, "GetMaxFileSizeByte() == filesystemSettings.MaxFileSizeByte") && !strings.Contains(cond, "||")
+	if !base {
+		return
+	}
+	fs.Tri("unchangedChecksType", TriOf(strings.Contains(cond, "s.patterns[pattern.Get()].GetSwampType() == setting.PermanentSwamp &&")), path+":"+itoa(f.Line(inner)))
 }
